@@ -1,5 +1,5 @@
 """Property -> rule composition.  Each function decides the statically decidable clauses of one property."""
-from .rules import kdefects, numeric, seed, typestate, ownership, clifford, circuit, stabilizer, adjoint, manifold, gellmann, twins, backend, masks, axes, pauli, convexroof, boundary, measure, relabel, angles, shapes, hermitian, ptrace, symplectic
+from .rules import kdefects, numeric, seed, typestate, ownership, clifford, circuit, stabilizer, adjoint, manifold, gellmann, twins, backend, masks, axes, pauli, convexroof, boundary, measure, relabel, angles, shapes, hermitian, ptrace, symplectic, groups
 
 M = 'numqi.'
 DECISION_C05 = ['numqi.entangle.ppt.is_ppt', 'numqi.entangle.ppt.is_generalized_ppt',
@@ -420,8 +420,27 @@ def c09(proj, rep, tier):
                'is a property of run-time bit vectors: not decided. Decided: encoder/decoder agreement and the helper tables they share.')
 
 
+def c14(proj, rep, tier):
+    n = groups.gr1(proj, rep)
+    rep.floor('GR1 left-regular placement', n, 1)
+    n = groups.gr2(proj, rep)
+    rep.floor('GR2 literal Klein table', n, 1)
+    n = groups.gr3(proj, rep)
+    rep.floor('GR3 residue-arithmetic tables', n, 2)
+    n = groups.gr4(proj, rep)
+    rep.floor('GR4 permutation-composition tables', n, 3)
+    n = groups.gr5(proj, rep)
+    rep.floor('GR5 hook-length obligations', n, 2)
+    n = groups.gr6(proj, rep)
+    rep.floor('GR6 partition recurrence', n, 1)
+    ncache, nsites = ownership.o1(proj, rep, focus={'numqi.group._symmetric._get_symmetric_group_cayley_table_hf0', 'numqi.group._symmetric._get_hook_length_hf0',
+                                                    'numqi.group._symmetric._get_sym_group_num_irrep_hf0'})
+    rep.assume('that a computed table satisfies the group axioms, that irreducible blocks are unitary homomorphisms with sum d^2 = |G|, that the Young-diagram '
+               'list is the set of partitions and that the tableau enumeration matches the hook-length count are value-level: not decided')
+
+
 def dev(proj, rep, tier):
     pass
 
 
-PROPS = {'C01': c01, 'C02': c02, 'C06': c06, 'C08': c08, 'C13': c13, 'C12': c12, 'C15': c15, 'C16': c16, 'C03': c03, 'C04': c04, 'C05': c05, 'C07': c07, 'C19': c19, 'C10': c10, 'C11': c11, 'C18': c18, 'C20': c20, 'C17': c17, 'C09': c09, 'DEV': dev}
+PROPS = {'C01': c01, 'C02': c02, 'C06': c06, 'C08': c08, 'C13': c13, 'C12': c12, 'C15': c15, 'C16': c16, 'C03': c03, 'C04': c04, 'C05': c05, 'C07': c07, 'C19': c19, 'C10': c10, 'C11': c11, 'C18': c18, 'C20': c20, 'C17': c17, 'C09': c09, 'C14': c14, 'DEV': dev}
